@@ -49,7 +49,7 @@ CSR_DWS = (1, 2, 3, 4, 5, 8, 8, 13, 16)
 
 
 @st.composite
-def csr_layout(draw, max_regs=6, dws=CSR_DWS, overlaps=True):
+def csr_layout(draw, max_regs=6, dws=CSR_DWS, overlaps=True, high=None):
     if draw(st.integers(0, 4)) == 0:
         # "packed odd" family: registers of 2,3,5,6,7 words placed back to back without natural
         # alignment, so that shadow chunks wrap around onto neighbouring registers (nested aliasing)
@@ -83,6 +83,7 @@ def csr_layout(draw, max_regs=6, dws=CSR_DWS, overlaps=True):
     lay["mid_elab"] = draw(st.booleans())
     if overlaps:
         lay["ov"] = draw(st.sampled_from([None, None, 0, 1, 2, 3]))
+    if overlaps if high is None else high:
         # occasionally the whole layout sits at a high base address (beyond 8 / 13 address bits)
         lay["base"] = draw(st.sampled_from([0] * 10 + [250, 256, 257, 300, 1000, 8192, 8195, 20000]))
         if draw(st.integers(0, 11)) == 0 and n >= 2:
